@@ -159,8 +159,13 @@ fn replay(prop: &str, h: &hist::History, rep: &mut Report) {
             mon::diffmon::run_one(prop, h, rep);
         }
         "C01" => {
-            for s in 0..4 {
-                mon::c01::c01_history(h, s, rep);
+            if h.calls.len() > 1000 && h.limit.is_some() {
+                mon::c01::calibrate_here();
+                mon::c01::c01_steady(h, rep);
+            } else {
+                for s in 0..4 {
+                    mon::c01::c01_history(h, s, rep);
+                }
             }
         }
         "C09" => relmon::c09_history(h, rep),
